@@ -51,6 +51,13 @@ GROUPS = {
     # and at the call of the instance
     "methods": dict(Kinds={"function", "class"}, Ops={"bind", "use", "param", "kwcall"}, ScopeNames=set(),
                     Roles={"init", "call"}, replay_all=True, quick=({"a"}, 4, 3), thorough=({"a"}, 4, 4)),
+    # decorated defs (bare @property outside a class, an identity decorator) still bind their name
+    "decos": dict(Kinds={"function", "class"}, Ops={"bind", "use", "param"}, ScopeNames={"a"},
+                  Decos={"none", "property", "other"}, quick=({"a"}, 3, 2), thorough=({"a"}, 3, 3)),
+    # class attributes referred to through instances: `C().a`, and `h(C()).a` with a pass-through helper
+    # used with instances of several classes (per-call-site inference)
+    "attrs": dict(Kinds={"class"}, Ops={"bind", "instattr", "helperattr"}, ScopeNames=set(), replay_all=True,
+                  quick=({"a"}, 3, 4), thorough=({"a"}, 4, 4)),
     "core2": dict(Kinds={"function", "class"}, Ops=CORE, ScopeNames=set(),
                   quick=({"a", "b"}, 2, 4), thorough=({"a", "b"}, 3, 4)),
     "defnames": dict(Kinds={"function", "class"}, Ops={"bind", "use", "global", "nonlocal", "param"},
@@ -96,6 +103,7 @@ def constants(group, tier, rename=False, fresh_only=True):
         "Libs": set(g.get("Libs", {"none"})), "ModFresh": {"zm"},
         "OneLiners": {False, True} if g.get("one_liners") else {False},
         "Blocks": set(g.get("Blocks", {"none"})), "Roles": set(g.get("Roles", {"plain"})),
+        "Decos": set(g.get("Decos", {"none"})),
         "LibNames": {"lb"} | (set(names) if g.get("lib_named_like_identifier") else set()),
         "DoRename": rename, "FreshOnly": fresh_only,
     }
@@ -224,6 +232,7 @@ class Rendered:
         self.last = {}       # scope -> last line
         self.brackets = {}   # comp scope -> ((line, col) of '[', (line, col) of ']')
         self.call_line = {}  # function / lambda scope -> line of its call
+        self.deco_lines = set()      # lines holding a decorator
         self.main = "mod.py"         # project-relative path of the first module
         self.lib_path = None         # path of the second module
         self.lib_lines = []
@@ -250,6 +259,11 @@ class Rendered:
         for l in self.lines:
             starts.append(starts[-1] + len(l) + 1)
         return {k: starts[line - 1] + col for k, (line, col) in self.tok.items()}
+
+    @property
+    def multi(self):
+        """more than one file"""
+        return self.lib_path is not None or bool(self.extra_files)
 
     # -- multi-module view: every token as (path, offset)
     @property
@@ -499,11 +513,11 @@ class _Renderer:
         if not lines:
             lines.append("pass")
 
-    def use(self, indent, e, expr):
+    def use(self, indent, e, expr, exc="NameError"):
         self.emit(indent, ["try:"])
         ln = self.emit(indent + 4, ["_u(", ("line",), ", "] + expr + [")"])
         self.r.use_line[ln] = ev_key(e)
-        self.emit(indent, ["except NameError:"])
+        self.emit(indent, ["except %s:" % exc])
         self.emit(indent + 4, ["_u(", str(ln), ", 'NameError')"])
 
     def params(self, s):
@@ -587,9 +601,19 @@ class _Renderer:
         if sc.get("one"):
             self.one_line_body(s, indent, ["def ", nm, "("] + head + ["):"])
         else:
+            deco = sc.get("deco", "none")
+            if deco != "none":
+                self.r.deco_lines.add(self.emit(indent, ["@property" if deco == "property" else "@_deco"]))
             self.r.head[s] = self.emit(indent, ["def ", nm, "("] + head + ["):"])
             self.body(s, indent + 4)
             self.r.last[s] = len(self.r.lines)
+            if deco == "property":
+                # the name now holds a property object: it is referred to, not called
+                if sc["name"] != "-":
+                    key = (sc["parent"], "call", sc["name"], s)
+                    self.use(indent, {"s": key[0], "op": "call", "n": key[2], "k": s}, [("id", key, name)])
+                self.r.call_line[s] = len(self.r.lines)
+                return
         cn = ("id", (sc["parent"], "call", sc["name"], s), name) if sc["name"] != "-" else name
         self.r.call_line[s] = self.emit(indent, [cn, "("] + args + [")"])
 
@@ -603,6 +627,11 @@ class _Renderer:
         self.r.head[s] = self.emit(indent, ["class ", nm, ":"])
         self.body(s, indent + 4)
         self.r.last[s] = len(self.r.lines)
+        # attribute references through an instance, directly and through the helper
+        for e in self.evs(s, "instattr"):
+            self.use(indent, e, [name, "().", self.ident(e)], exc="(NameError, AttributeError)")
+        for e in self.evs(s, "helperattr"):
+            self.use(indent, e, ["_h(", name, "()).", self.ident(e)], exc="(NameError, AttributeError)")
         roles = {self.p.scopes[c].get("role", "plain"): c for c in self.p.children[s]}
         if "init" in roles or "call" in roles:
             # instantiate the class (keyword arguments are tokens of __init__'s parameters),
@@ -660,6 +689,10 @@ class _Renderer:
 
     def run(self):
         self.r.head[1] = 1
+        if any(e["op"] == "helperattr" for e in self.p.events):
+            # the pass-through helper lives in a module of its own (no extra scope here)
+            self.emit(0, ["from hlp import _h"])
+            self.r.extra_files["hlp.py"] = "def _h(obj):\n    item = obj\n    return item\n"
         self.body(1, 0)
         self.r.last[1] = len(self.r.lines)
         self.lib_module()
@@ -740,7 +773,7 @@ def _make_helpers(out):
     def _z(*a):
         return []
 
-    return {"_E": _E, "_cm": _CM, "_u": _u, "_z": _z}
+    return {"_E": _E, "_cm": _CM, "_u": _u, "_z": _z, "_deco": (lambda f: f)}
 
 
 def execute(src):
@@ -805,7 +838,7 @@ def execute_project(files, main, outside=None):
 
 
 def run_rendered(r):
-    if r.lib_path is None:
+    if not r.multi:
         return execute(r.src)
     return execute_project(r.files, r.main, r.outside)
 
